@@ -132,14 +132,22 @@ func Unary23() []U23 {
 			func(s sdf.SDF2) (sdf.SDF3, error) { return sdf.Revolve3D(s) },
 			func(f Ev2) Ev3 { return func(p v3.Vec) float64 { return f(v2.Vec{X: math.Hypot(p.X, p.Y), Y: p.Z}) } })
 	}})
-	for _, deg := range []float64{60, 90, 180, 270, 330} {
+	for _, deg := range []float64{60, 90, 180, 270, 330, 360, 420, 720} { // angles of a full turn and more are taken modulo 360
 		deg := deg
 		name := fmt.Sprintf("RevolveTheta3D[%gdeg]", deg)
 		out = append(out, U23{Name: name, Root: "RevolveTheta3D", NeedsRightHalf: true, App: func(c N2) N3 {
 			return lift(c, name, "RevolveTheta3D", RefSet, false, c.Lip,
 				func(s sdf.SDF2) (sdf.SDF3, error) { return sdf.RevolveTheta3D(s, sdf.DtoR(deg)) },
 				func(f Ev2) Ev3 {
-					th := sdf.DtoR(deg)
+					th := sdf.DtoR(math.Mod(deg, 360))
+					if th == 0 { // a whole number of turns: the full solid of revolution
+						return func(p v3.Vec) float64 {
+							if math.Hypot(p.X, p.Y) < 1e-9 {
+								return math.NaN()
+							}
+							return f(v2.Vec{X: math.Hypot(p.X, p.Y), Y: p.Z})
+						}
+					}
 					return func(p v3.Vec) float64 {
 						a := math.Atan2(p.Y, p.X)
 						if a < 0 {
@@ -327,7 +335,7 @@ func Bin2(op string, bl Blend, a, b N2) N2 {
 	if bl.Poly {
 		kind = RefNone
 	}
-	return N2{Name: name, Root: op + "2D", Depth: 1 + maxInt(a.Depth, b.Depth), Kind: kind, Lip: a.Lip && b.Lip,
+	return N2{Name: name, Root: op + "2D", Depth: 1 + maxInt(a.Depth, b.Depth), Kind: kind, Lip: a.Lip && b.Lip, OperandExact: a.Exact && b.Exact,
 		Build: func() (sdf.SDF2, error) {
 			x, err := a.Build()
 			if err != nil {
